@@ -46,6 +46,7 @@ using namespace oasl;
 typedef std::vector<uint8_t> Bytes;
 
 static std::string g_dir;
+static bool g_thorough = false;
 
 // ------------------------------------------------------------------ zlib with gdstk's parameters
 // inflate(Z_FINISH) into avail_out bytes: true + output iff Z_STREAM_END
@@ -134,6 +135,8 @@ struct Table {
             size_t take = cn < avail ? (size_t)cn : avail;
             Bytes z(file.begin() + (p <= file.size() ? p : file.size()), file.begin() + (p <= file.size() ? p : file.size()) + take);
             int k = add(z, n);
+            // a nested header whose size integers fail (the end test of the enclosing buffer uses the new size) asks for no data
+            if (!in_file) add(Bytes(), n);
             if (k >= 0 && rs[k].first && depth < 2 && !rs[k].second.empty()) {
                 Bytes inner = rs[k].second;
                 scan(inner, false, file, p + take, depth + 1);
@@ -313,7 +316,7 @@ static Wrapped wrap_random(const Bytes& plain, Rng& g) {
         pick_range(g.coin(), a, b);
         Bytes in(plain.begin() + a, plain.begin() + b);
         int64_t du = g.coin() ? (int64_t)g.range(1, 5) : -(int64_t)g.range(1, (int64_t)std::min<size_t>(in.size(), 5));
-        if (g.chance(3)) du = (int64_t)(1ull << (32 + g.below(6)));   // (uInt) truncation of avail_out: rare, the real reader then walks 2^32 zero bytes
+        if (g_thorough && g.chance(2) && g.chance(4)) du = (int64_t)(1ull << (32 + g.below(6)));   // (uInt) truncation of avail_out: rare, the real reader then walks 2^32 zero bytes
         w.bytes = splice(plain, a, b, cblock(in, level, 0, du, 0, 0, g));
         w.what = du > 0 ? "usize-larger" : "usize-smaller";
     } else if (mode < 86) {        // wrong compressed size
@@ -333,7 +336,7 @@ static Wrapped wrap_random(const Bytes& plain, Rng& g) {
     } else {                       // unknown compression type
         pick_range(g.coin(), a, b);
         Bytes in(plain.begin() + a, plain.begin() + b);
-        uint64_t ty = g.chance(20) ? (1ull << 40) : g.chance(10) ? 0xffffffffffffffffull : (uint64_t)g.range(1, 300);
+        uint64_t ty = g.chance(30) ? 1 : g.chance(20) ? (1ull << 40) : g.chance(10) ? 0xffffffffffffffffull : (uint64_t)g.range(1, 300);
         w.bytes = splice(plain, a, b, cblock(in, level, ty, 0, 0, 0, g));
         w.what = "type";
     }
@@ -409,6 +412,7 @@ int main(int argc, char** argv) {
     }
     uint64_t seed = strtoull(argv[1], NULL, 10);
     bool thorough = strcmp(argv[2], "thorough") == 0;
+    g_thorough = thorough;
     g_dir = argv[3];
     rd::g_outdir = argv[3];
     wr::g_outdir = argv[3];
@@ -488,7 +492,8 @@ int main(int argc, char** argv) {
             out.count("wrap:" + w.what);
             snprintf(tag, sizeof tag, "p%zu %s", bi, w.what.c_str());
             run_rdc(out, "rdc-wrap", tag, w.bytes);
-            if ((w.what == "aligned" || w.what == "midrecord" || w.what == "nested" || w.what == "two") && w.bytes.size() < 400 &&
+            // (a block that ends inside a record with a multi-byte read makes the model say "any result" for every prefix)
+            if ((w.what == "aligned" || w.what == "nested" || w.what == "two" || w.what == "type" || (w.what == "midrecord" && g.chance(25))) && w.bytes.size() < 400 &&
                 packed.size() < (thorough ? 900u : 100u) && g.chance(20))
                 packed.push_back(w.bytes);
         }
